@@ -99,21 +99,7 @@ func RunBook(kind string, maxConns int, ops []BOp) ([]BObs, error) {
 // agent uses to end it.
 func GenTableHistory(r *vh.Rand, n int) []TOp {
 	var ops []TOp
-	// mesh: all four neighbours dialled the transit and each of them may be the
-	// ingress side of one tunnel and the exit side of another (same odd ids)
-	nextUp := map[int]uint64{1: 1, 2: 1, 3: 1, 4: 1}
-	dialerFor := func(p int) bool { return !mesh && p >= 3 }
-	pick := func() (int, int) {
-		if !mesh {
-			return 1 + r.Intn(2), 3 + r.Intn(2)
-		}
-		up := 1 + r.Intn(4)
-		down := 1 + r.Intn(3)
-		if down >= up {
-			down++
-		}
-		return up, down
-	}
+	nextUp := map[int]uint64{1: 1, 2: 1}
 	nextDown := map[int]uint64{3: 1, 4: 1}
 	var lv []Entry
 	term := func(i int) {
